@@ -276,12 +276,14 @@ class WebSocket(object):
         if self.state.session is not None:
             self.state.session.force_disconnect()
 
-    def on_disconnect(self):
+    def on_disconnect(self, state=None):
         """Called on disconnect."""
-        if self.state.session is not None:
-            self.state.session.close()
-        self.state.closed = True
-        self.state.closing = False
+        if state is None:
+            state = self.state
+        if state.session is not None:
+            state.session.close()
+        state.closed = True
+        state.closing = False
 
     def feed(self, data):
         """Feed with data from the socket, and yield any events.
@@ -294,6 +296,9 @@ class WebSocket(object):
         """
         if self.is_closed:
             return
+        # An abandoned generator may be closed after the websocket was
+        # reset by another call to connect, it belongs to this state.
+        state = self.state
         try:
             for message in self.stream.feed(data):
                 if isinstance(message, Response):
@@ -340,7 +345,7 @@ class WebSocket(object):
             # The generator has exited prematurely, due to an exception
             # handling the event.
             log.warning('disconnecting websocket')
-            self.on_disconnect()
+            self.on_disconnect(state)
 
     def build_request(self):
         """Get the websocket request (in bytes).
